@@ -58,9 +58,11 @@ Definition i64_max : Z := 9223372036854775807.
 Definition in_i32 (z : Z) : bool := (i32_min <=? z) && (z <=? i32_max).
 Definition in_i64 (z : Z) : bool := (i64_min <=? z) && (z <=? i64_max).
 
-(* two's complement wrap (what `as i32`, `wrapping_mul`, and `<<` do) *)
-Definition wrap32 (z : Z) : Z := (z + 2147483648) mod 4294967296 - 2147483648.
-Definition wrap64 (z : Z) : Z := (z + 9223372036854775808) mod 18446744073709551616 - 9223372036854775808.
+(* two's complement wrap (what `as i32`, `wrapping_mul`, and `<<` do).  Written with a mask so
+   that the extracted model is fast; [wrap32_eq]/[wrap64_eq] give the arithmetic reading. *)
+Definition wrap32 (z : Z) : Z := Z.land (z + 2147483648) 4294967295 - 2147483648.
+Definition wrap64 (z : Z) : Z := Z.land (z + 9223372036854775808) 18446744073709551615 - 9223372036854775808.
+Definition wrapu32 (z : Z) : Z := Z.land z 4294967295.
 
 (* ---- checked operations: Panic exactly when rustc's overflow check fires ---- *)
 Definition chk32 (site : string) (z : Z) : res Z := if in_i32 z then Ok z else Panic site.
@@ -77,17 +79,23 @@ Definition abs64 a := chk64 "i64 abs overflow" (Z.abs a).
 (* shifts: the shift amount is a constant < width everywhere in the crate; `>>` on a signed
    integer is an arithmetic shift (floor division), `<<` discards the bits shifted out *)
 Definition shr (a n : Z) : Z := Z.shiftr a n.
-Definition shl32 (a n : Z) : Z := wrap32 (a * 2 ^ n).
-Definition shl64 (a n : Z) : Z := wrap64 (a * 2 ^ n).
+Definition shl32 (a n : Z) : Z := wrap32 (Z.shiftl a n).
+Definition shl64 (a n : Z) : Z := wrap64 (Z.shiftl a n).
 
 Lemma chk32_ok s z : i32_min <= z <= i32_max -> chk32 s z = Ok z.
 Proof. unfold chk32, in_i32; intros [H1 H2]. apply Z.leb_le in H1, H2. now rewrite H1, H2. Qed.
 Lemma chk64_ok s z : i64_min <= z <= i64_max -> chk64 s z = Ok z.
 Proof. unfold chk64, in_i64; intros [H1 H2]. apply Z.leb_le in H1, H2. now rewrite H1, H2. Qed.
+Lemma wrap32_eq z : wrap32 z = (z + 2147483648) mod 4294967296 - 2147483648.
+Proof. unfold wrap32. change 4294967295 with (Z.ones 32). rewrite Z.land_ones by lia. reflexivity. Qed.
+Lemma wrap64_eq z : wrap64 z = (z + 9223372036854775808) mod 18446744073709551616 - 9223372036854775808.
+Proof. unfold wrap64. change 18446744073709551615 with (Z.ones 64). rewrite Z.land_ones by lia. reflexivity. Qed.
+Lemma wrapu32_eq z : wrapu32 z = z mod 4294967296.
+Proof. unfold wrapu32. change 4294967295 with (Z.ones 32). rewrite Z.land_ones by lia. reflexivity. Qed.
 Lemma wrap32_id z : i32_min <= z <= i32_max -> wrap32 z = z.
-Proof. unfold wrap32, i32_min, i32_max; intros H. rewrite Z.mod_small; lia. Qed.
+Proof. rewrite wrap32_eq. unfold i32_min, i32_max; intros H. rewrite Z.mod_small; lia. Qed.
 Lemma wrap64_id z : i64_min <= z <= i64_max -> wrap64 z = z.
-Proof. unfold wrap64, i64_min, i64_max; intros H. rewrite Z.mod_small; lia. Qed.
+Proof. rewrite wrap64_eq. unfold i64_min, i64_max; intros H. rewrite Z.mod_small; lia. Qed.
 
 Lemma mapM_ok {A B} (f : A -> res B) (g : A -> B) l :
   (forall a, In a l -> f a = Ok (g a)) -> mapM f l = Ok (map g l).
